@@ -29,11 +29,22 @@ import (
 	"verif/harness/mon"
 )
 
-const (
-	verifDir   = "/verif"
-	harnessDir = "/verif/harness"
-	repoDir    = "/repo"
+// verifDir: root of the verification tree (VERIF_DIR, default /verif; the
+// check script sets it to its own directory so that snapshots are
+// self-contained).
+var (
+	verifDir   = envOr("VERIF_DIR", "/verif")
+	harnessDir = filepath.Join(verifDir, "harness")
 )
+
+const repoDir = "/repo"
+
+func envOr(k, d string) string {
+	if v := os.Getenv(k); v != "" {
+		return v
+	}
+	return d
+}
 
 type finding struct {
 	Property string            `json:"property"`
